@@ -15,6 +15,9 @@ mod node;
 mod refs;
 pub mod types;
 
+#[cfg(reclass_rs_verif)]
+pub mod verif_hooks;
+
 use anyhow::{anyhow, Result};
 use pyo3::exceptions::PyValueError;
 use pyo3::prelude::*;
